@@ -1,6 +1,7 @@
 """C06 -- SSL/TLS messages are laid out exactly as the RFCs specify (independent table oracle)."""
 from __future__ import annotations
 
+import ast
 import json
 import os
 
@@ -34,11 +35,67 @@ MODULES = {'cryptoparser.tls.record', 'cryptoparser.tls.subprotocol', 'cryptopar
 HERE = os.path.dirname(os.path.dirname(os.path.abspath(__file__)))
 
 
+
+def octets_kept_as_received(ctx, report, RULE='C06.R11', prefix='cryptoparser/tls/'):
+    """TLS carries octet strings (host names, protocol names, opaque values) whose letter case is part of the value on the wire:
+    a decoder that folds the case hands back an object that composes to other bytes than the ones received.  Examined: every
+    function of the TLS modules whose name contains ``parse`` together with the helpers it calls through ``cls`` / ``self`` / a
+    module level name (followed through the class chain, three calls deep).  Reported: a call of ``lower`` / ``upper`` /
+    ``casefold`` / ``title`` / ``swapcase`` / ``capitalize`` in one of them unless the receiver is the ``name`` of an
+    enumeration member (text of the package, not of the wire)."""
+    report.rule(RULE, 'TLS decoders keep octet strings in the letter case received: no case folding on the parse side')
+    FOLD = ('lower', 'upper', 'casefold', 'title', 'swapcase', 'capitalize')
+
+    def folds(node):
+        out = []
+        for x in ast.walk(node):
+            if isinstance(x, ast.Call) and isinstance(x.func, ast.Attribute) and x.func.attr in FOLD and not x.args:
+                recv = x.func.value
+                if isinstance(recv, ast.Attribute) and recv.attr == 'name':
+                    continue
+                out.append(ast.unparse(x)[:70])
+        return out
+    if not folds(ast.parse("def _decode(cls, v):\n    return six.ensure_text(v.lower(), 'idna')\n")) or folds(ast.parse('x = self.version.name.lower()')):
+        report.error('%s: the rule does not recognise its own samples' % RULE)
+        return
+    model = ctx.model
+    by_module = {}
+    for f in model.functions():
+        if not f.module.external and f.cls is None:
+            by_module.setdefault(f.module.relpath, {})[f.name] = f
+    n = 0
+    for f in model.functions():
+        if f.module.external or not f.module.relpath.startswith(prefix) or 'parse' not in f.name:
+            continue
+        n += 1
+        todo, seen = [(f, 0)], {id(f.node)}
+        while todo:
+            g, depth = todo.pop()
+            for text in folds(g.node):
+                report.add(RULE, '%s@folds[%s]' % (f.construct, g.name), '%s%s folds the letter case of what was read: %s' % (
+                    g.construct, '' if g is f else ' (called from %s)' % f.name, text))
+            if depth >= 3:
+                continue
+            for x in ast.walk(g.node):
+                if not isinstance(x, ast.Call):
+                    continue
+                callee = None
+                if isinstance(x.func, ast.Attribute) and isinstance(x.func.value, ast.Name) and x.func.value.id in ('cls', 'self') and g.cls is not None:
+                    callee = g.cls.resolve(x.func.attr)
+                elif isinstance(x.func, ast.Name):
+                    callee = by_module.get(g.module.relpath, {}).get(x.func.id)
+                if callee is not None and getattr(callee, 'node', None) is not None and not callee.module.external and id(callee.node) not in seen:
+                    seen.add(id(callee.node))
+                    todo.append((callee, depth + 1))
+    report.count(RULE, n)
+    report.floor(RULE, 60, 'parse functions of the TLS modules')
+
 def check(ctx, report):
     with open(os.path.join(HERE, 'reviewed.json')) as f:
         reviewed = json.load(f).get('C06', {})
     speccheck.run(ctx, report, 'C06', 'tls.json', MODULES, reviewed)
     ssl2_header(ctx, report)
+    octets_kept_as_received(ctx, report)
     from .. import rejections
     rejections.check(ctx, report, 'C06.R6', 'tls')
     from .c10 import variant_order
